@@ -22,6 +22,7 @@ import (
 	"sort"
 	"strconv"
 	"strings"
+	"time"
 	"unsafe"
 
 	"golang.org/x/telemetry/internal/counter"
@@ -285,6 +286,9 @@ type tstate struct {
 	callMaps     int  // mappings created by the call (re-maps and extensions)
 	callReserved bool // the call's CAS on the limit word moved the limit (it has reserved a record)
 	nres         int  // results logged
+	// the mapping the process held when it called newCounter was closed by the CALLEE (the process's other
+	// goroutines may still hold pointers into it: only the caller may close it, after invalidating them)
+	callerClosed int
 }
 
 type mapping struct{ base, n uintptr }
@@ -719,7 +723,20 @@ func exhScen(plan []int) scen {
 	return sc
 }
 
+var nHangs int
+var startWall = time.Now()
+
+// tooLong: the code under test misbehaves widely (scenarios run into their step budget, or everything is
+// slow): stop generating, so that the quick tier stays bounded; what has been found is reported
+func tooLong() bool {
+	return nHangs >= 4 || time.Since(startWall) > 150*time.Second
+}
+
 func runScen(sc scen) {
+	if tooLong() {
+		out.Note("skipped-after-hangs")
+		return
+	}
 	dir, err := os.MkdirTemp(root, "f")
 	if err != nil {
 		panic(err)
@@ -815,8 +832,13 @@ func runScen(sc scen) {
 				if o.isNew {
 					st.cell = nil
 					st.callMaps, st.callReserved = 0, false
+					held := st.h
+					heldBase := held.Base()
 					cell, m1, err := st.h.NewCounter(sc.pl.names[o.name])
 					cls := counter.VerifErrClass(err)
+					if held.Closed() || (heldBase != 0 && vatomic.IsClosedAddr(heldBase)) {
+						st.callerClosed++
+					}
 					if err == nil {
 						hh := st.h
 						if m1 != nil {
@@ -1014,6 +1036,7 @@ func runScen(sc scen) {
 	if shrunk {
 		status = "shrunk"
 	} else if hang {
+		nHangs++
 		status = "hang"
 	} else if panicked != "" {
 		status = "panic"
@@ -1059,7 +1082,7 @@ func runScen(sc scen) {
 		if ts[i].h != nil {
 			ml = int64(ts[i].h.Len())
 		}
-		fields = append(fields, B(killed), B(done), I(ml), I(int64(ts[i].nres)))
+		fields = append(fields, B(killed), B(done), I(ml), I(int64(ts[i].callerClosed)), I(int64(ts[i].nres)))
 		fields = append(fields, ts[i].results...)
 	}
 	out.Case(true, fields...)
